@@ -17,7 +17,12 @@ CHECKS = {
  "C08": dict(technique="CrossHair symbolic execution of transform/map.py (range ints, positions, assoc symbolic) + z3 QF_BVFP lemma for the float recover encoding",
              text="For every step map with up to 3 ranges of unbounded non-negative size, every position and both association sides the solver shows map/map_result/recover/touches/for_each/invert agree with an independent reference model, and that Mapping slice/copy/append*/invert and mirrored round trips equal left-to-right composition; a z3 floating-point lemma proves the float recover encoding exact below 2^52.",
              ref="4/C08"),
+
+ "C09": dict(technique="CrossHair symbolic execution of resolvedpos.py/fragment.py/node.py position code (positions, depth argument, range ends symbolic) against a flat-token reference model",
+             text="On every catalogue document (<= 25 tokens, depth <= 4, astral text, non-inclusive marks) the solver explores every path of resolve and all derived accessors, node_at, child_before/after, nodes_between, text_between, range_has_mark, shared_depth, block_range, marks, marks_across, find_index for every position / position pair (out-of-range positions must raise) and each path's result is compared with the value read off the token list.",
+             ref="4/C09"),
 }
+CHECKS_END = None
 
 NA_REASON = "check not built yet in this round (planned in DESIGN.md section 4); nothing is claimed"
 
